@@ -28,6 +28,9 @@ type Step struct {
 	Nodes int `json:"nodes"` // -1 none
 	Soft  int `json:"soft"`
 	Pick  int `json:"pick"` // -1: play the engine's move; otherwise index into the sorted legal moves (mod len)
+	// PonderHit > 0: the search starts as a ponder search and the ponderhit is delivered from inside the
+	// PonderHit-th info line (limits apply from then on)
+	PonderHit int `json:"ponderhit,omitempty"`
 }
 
 // Case: a game fragment searched with one engine instance whose tables carry over.
@@ -127,6 +130,24 @@ func judge(p refchess.Pos, r srch.Result, rec *evid.Rec, warmed bool) error {
 	return nil
 }
 
+// hitWriter delivers the ponderhit once `after` lines have been written.
+type hitWriter struct {
+	inner *strings.Builder
+	after int
+	seen  int
+	ch    chan time.Time
+	sent  bool
+}
+
+func (w *hitWriter) Write(p []byte) (int, error) {
+	w.seen++
+	if w.seen >= w.after && !w.sent {
+		w.sent = true
+		w.ch <- time.Now()
+	}
+	return w.inner.Write(p)
+}
+
 var bestRe = regexp.MustCompile(`^bestmove (\S+)( ponder (\S+))?$`)
 
 func checkCase(c Case, rec *evid.Rec) (err error) {
@@ -214,7 +235,21 @@ func checkCase(c Case, rec *evid.Rec) (err error) {
 			if st.Soft > 0 {
 				opts = append(opts, search.WithSoftNodes(st.Soft))
 			}
-			r = srch.Run(s, b, false, opts...)
+			if st.PonderHit > 0 {
+				ph := make(chan time.Time, 1)
+				var buf strings.Builder
+				pw := &hitWriter{inner: &buf, after: st.PonderHit, ch: ph}
+				cnt := search.Counters{}
+				opts = append(opts, search.WithPonderHit(ph), search.WithOutput(pw), search.WithCounters(&cnt))
+				sc, m, pm := s.Go(b, opts...)
+				r = srch.Result{Score: sc, Move: m, Ponder: pm, Nodes: cnt.Nodes, Raw: buf.String()}
+				r.Lines, r.BadLine = srch.Parse(r.Raw)
+				if rec != nil {
+					rec.Class("ponderhit_mid_search")
+				}
+			} else {
+				r = srch.Run(s, b, false, opts...)
+			}
 		}
 		warmed := i > 0 || c.TT <= 32*1024
 		// the third-occurrence rule makes a root final too; skip those (C06 owns them)
@@ -284,6 +319,10 @@ func genCase(t *rapid.T) Case {
 		}
 		if gen.Chance(t, 1, 4, "pick") {
 			st.Pick = gen.Draw(t, 0, 200, "pickIx")
+		}
+		if gen.Chance(t, 1, 6, "ponder") {
+			st.PonderHit = gen.Draw(t, 1, 4, "hitAfter")
+			st.Depth = min(st.Depth, 7)
 		}
 		c.Steps = append(c.Steps, st)
 	}
